@@ -23,7 +23,7 @@ SPEC_DIR = tlc.SPEC / "concat"
 ALL_DEV = ["RenameKeepsLabel", "WsRemoveKeepsChild", "HoleRemovalKeepsObjectRows", "HoleRemovalKeepsGroupChild",
            "StalePgIdCache", "EmptyTableRaises", "TableByLabel"]
 # (cfg, format version, number of paths replayed: None = the complete path cover, n = seeded sample)
-EXPORTS = {"quick": [("DrillholeConcatExportQuick.cfg", 21, 1200), ("DrillholeConcatExportDeep.cfg", 21, 900),
+EXPORTS = {"quick": [("DrillholeConcatExportQuick.cfg", 21, 1000), ("DrillholeConcatExportDeep.cfg", 21, 500),
                      ("DrillholeConcatExportQuick20.cfg", 20, None)],
            "thorough": [("DrillholeConcatExportQuick.cfg", 21, None), ("DrillholeConcatExportDeep.cfg", 21, None),
                         ("DrillholeConcatExportQuick20.cfg", 20, None), ("DrillholeConcatExportThorough20.cfg", 20, 2500),
@@ -278,7 +278,8 @@ def run(tier, seed):
                     "records are compared with the state TLC computed",
         },
         "assumptions": [
-            "bounds: see spec/concat/*.cfg (2-3 holes, names a/b, depth and interval tables, lengths 0..3, 5-8 actions)",
+            "bounds: see spec/concat/*.cfg (2-3 holes, names a/b, depth and interval tables, lengths 0..3, 3-5 actions from the empty group or 2-3 actions after Populate (3 holes, 5 data sets), formats 2.0 and 2.1)",
+            "larger graphs are replayed through a seeded sample of their transition cover (coverage.per_config.paths / exhaustive)",
             "one depth table and one interval table per hole (default group names depth_0 / Interval_0); DEPTH/FROM/TO are not rewritten",
             "after an as-built deviation made a hole inconsistent only re-open, removal of that hole and actions on other holes are explored",
         ],
